@@ -18,6 +18,9 @@ DIST_UNITS = ["Foot", "Yard", "Meter", "Inch", "Kilometer", "Mile", "Centimeter"
 CLAUSE_OWNER = {"C03": "C03", "C04": "C04", "C11": "C11", "C12": "C12", "C15": "C15", "C18": "C18", "Trace": "machinery"}
 
 
+_TIMEOUTS: List[int] = []
+
+
 def owner(clause: str) -> str:
     return CLAUSE_OWNER.get(clause.split(".")[0], "machinery")
 
@@ -67,7 +70,9 @@ def run_fire(sc: Dict[str, Any], tid: int, keep_call: bool = False) -> Dict[str,
         kwargs["time_step"] = sc["time_step"]
     api: Dict[str, Any] = {"default_step": sc.get("step_ft") is None}
     try:
-        with integ.Watchdog(sc.get("watchdog_s", 120)):
+        # generous (machine may be loaded); once one call has hung, the following ones get 20 s so that a
+        # non-terminating change does not cost 300 s per scenario
+        with integ.Watchdog(sc.get("watchdog_s", 300) if not _TIMEOUTS else 20):
             hr = calc.fire(shot, rng_q, **kwargs)
         out["outcome"] = "ok"
         out["rows"] = hr.trajectory
@@ -80,6 +85,7 @@ def run_fire(sc: Dict[str, Any], tid: int, keep_call: bool = False) -> Dict[str,
                                    and e.last_distance.raw_value == e.incomplete_trajectory[-1].distance.raw_value)
         api["exc"] = e
     except TimeoutError:
+        _TIMEOUTS.append(tid)
         out["outcome"] = "timeout"
         out["rows"] = []
     except Exception as e:  # noqa
